@@ -1517,6 +1517,13 @@ func ExtractTransactionOffsets(cborData []byte) (*BlockTransactionOffsets, error
 		return extractByronTransactionOffsets(cborData, blockArray)
 	}
 
+	// Shelley+ blocks have at least 4 elements. A 3-element block that is not a
+	// Byron main block (a Byron epoch boundary block: [header, stakeholder_ids,
+	// extra]) has no transaction segments.
+	if len(blockArray) < 4 {
+		return &BlockTransactionOffsets{Transactions: []TransactionLocation{}}, nil
+	}
+
 	// Shelley+ block layout: [header, tx_bodies[], witnesses[], metadata_map, ...]
 	// Calculate header size by finding where blockArray[0] starts
 	// CBOR array header is 1 byte for arrays < 24 elements, more for larger
